@@ -1654,48 +1654,39 @@ int bufr_compare_value( const BufrValue *bv1, const BufrValue *bv2, double eps )
  */
 int bufr_between_values( const BufrValue *bv1, const BufrValue *bv, const BufrValue *bv2 )
    {
-   if ((bv1->type != bv->type)||(bv2->type != bv->type)) return -1;
+/*
+ * the bounds of a search key are made by bufr_set_key_int32() or bufr_set_key_flt32() and the
+ * value has the type of its element (VALTYPE_FLT64 for every scaled element): the three types
+ * need not be the same, only a string cannot be compared with a number
+ */
+   if (((bv1->type == VALTYPE_STRING) != (bv->type == VALTYPE_STRING))
+     ||((bv2->type == VALTYPE_STRING) != (bv->type == VALTYPE_STRING))) return -1;
 
-   switch( bv1->type )
+   switch( bv->type )
       {
       case VALTYPE_INT8 :
       case VALTYPE_INT32 :
-         {
-         int32_t  i1, i2, ii;
-
-         i1 = bufr_value_get_int32( bv1 );
-         i2 = bufr_value_get_int32( bv2 );
-         ii = bufr_value_get_int32( bv );
-         if ((i1 <= ii)&&(ii <= i2)) return 1;
-         }
-         break;
       case VALTYPE_INT64 :
-         {
-         int64_t  i1, i2, ii;
+         if ((bv1->type != VALTYPE_FLT32)&&(bv1->type != VALTYPE_FLT64)&&
+             (bv2->type != VALTYPE_FLT32)&&(bv2->type != VALTYPE_FLT64))
+            {
+            int64_t  i1, i2, ii;
 
-         i1 = bufr_value_get_int64( bv1 );
-         i2 = bufr_value_get_int64( bv2 );
-         ii = bufr_value_get_int64( bv );
-         if ((i1 <= ii)&&(ii <= i2)) return 1;
-         }
-         break;
+            i1 = bufr_value_get_int64( bv1 );
+            i2 = bufr_value_get_int64( bv2 );
+            ii = bufr_value_get_int64( bv );
+            if ((i1 <= ii)&&(ii <= i2)) return 1;
+            break;
+            }
+/* an integer value between real bounds: compare as reals (fall through) */
       case VALTYPE_FLT32 :
-         {
-         float  f1, f2, ff;
-
-         f1 = bufr_value_get_float( bv1 );
-         f2 = bufr_value_get_float( bv2 );
-         ff = bufr_value_get_float( bv );
-         if ((f1 <= ff)&&(ff <= f2)) return 1;
-         }
-         break;
       case VALTYPE_FLT64 :
          {
          double  f1, f2, ff;
 
          f1 = bufr_value_get_double( bv1 );
          f2 = bufr_value_get_double( bv2 );
-         ff = bufr_value_get_float( bv );
+         ff = bufr_value_get_double( bv );
          if ((f1 <= ff)&&(ff <= f2)) return 1;
          }
          break;
